@@ -536,7 +536,17 @@ func (x *pathCtx) symConv(dst types.BasicKind, v sym) value {
 		if !dsigned {
 			opn = "fp.to_ubv"
 		}
-		return x.lower(tt.intern(fmt.Sprintf("(_ %s %d) RTZ", opn, dw), bvSort(dw), v.t), dst)
+		conv := tt.intern(fmt.Sprintf("(_ %s %d) RTZ", opn, dw), bvSort(dw), v.t)
+		if dsigned && dw == 64 && v.t.sort.w == 64 {
+			// SMT-LIB leaves fp.to_sbv unspecified for NaN and out-of-range
+			// operands; Go leaves it implementation-defined; the machine the
+			// counterexamples are replayed on (amd64, CVTTSD2SQ) yields the
+			// "integer indefinite" value 0x8000000000000000.  -2^63 <= x < 2^63.
+			lo, hi := tt.FP(64, -9223372036854775808.0), tt.FP(64, 9223372036854775808.0)
+			inRange := tt.And(tt.FCmp("fp.leq", lo, v.t), tt.FCmp("fp.lt", v.t, hi))
+			conv = tt.Ite(inRange, conv, tt.BV(64, 0x8000000000000000))
+		}
+		return x.lower(conv, dst)
 	case isFloatKind(v.k) && isFloatKind(dst):
 		if dst == types.Float64 {
 			return x.lower(tt.intern("(_ to_fp 11 53) RNE", fpSort(64), v.t), dst)
